@@ -216,7 +216,7 @@ func c14GenDecor(t *rapid.T, label string) *c14Decor {
 		}
 		return fmt.Sprintf("(0x%x?)", i)
 	}
-	root := rapid.SampledFrom([]string{"/home/alice/secret-project", "/usr/lib/go/src", "C:/Users/bob/go/src", "/tmp/" + label}).Draw(t, label+"root")
+	root := rapid.SampledFrom([]string{"/home/alice/secret-project", "/usr/lib/go/src", "C:/Users/bob/go/src", "/tmp/" + label, "/home/alice/pc=0x10/src"}).Draw(t, label+"root")
 	d.file = func(i int) string { return fmt.Sprintf("%s/pkg%d/file%d.go", root, i%3, i) }
 	ren := rapid.Bool().Draw(t, label+"rename")
 	d.rename = func(s string) string {
